@@ -55,7 +55,7 @@ replace verif.local/simrt => ../simrt
 EOT
 cat "$SCR/pokertable/go.sum" "$VERIF/sim/go.sum.extra" 2>/dev/null | sort -u > "$SCR/sim/go.sum"
 INSTR="$VERIF/bin/instr"
-[ -x "$INSTR" ] || (cd "$VERIF/instr" && go build -o "$INSTR" . ) || fail "build instr"
+{ [ -x "$INSTR" ] && [ "$INSTR" -nt "$VERIF/instr/main.go" ]; } || (cd "$VERIF/instr" && go build -o "$INSTR" . ) || fail "build instr"
 base=1
 run_instr() { # dir name patterns...
   local dir="$1" name="$2"; shift 2
